@@ -3,6 +3,7 @@
 //! usage: c14 <ops-file> [--spec <file>]
 //! spec line: `<tokenset> <codepoints-hex-list | ->`   tokenset = `w<idx|->x<extras shape> ; prec,isString,AST ; …` without spaces
 //! AST: L61.62 literal | C0:61-63:30-30 class (1 = negated) | S(a,b) | A(a,b) | K(a) star | P(a) plus | O(a) opt | R2.3(a)
+//!      Z(p~a/q~b) = choice(prec(p,a), prec(q,b)) (one member: prec(p,a)); at the top of a token or, since round 11b, anywhere under S/A/K/P/O
 use serde_json::{json, Value};
 use std::io::Write;
 use tree_sitter::Parser;
@@ -146,7 +147,35 @@ impl Re {
         }
     }
     fn seq_part(&self) -> String {
-        match self { Re::Alt(..) => format!("({})", self.pattern()), _ => self.pattern() }
+        match self { Re::Alt(..) | Re::Alts(..) => format!("({})", self.pattern()), _ => self.pattern() }
+    }
+    /// does a `prec` stand somewhere inside this expression?
+    fn has_alts(&self) -> bool {
+        match self {
+            Re::Alts(_) => true,
+            Re::Seq(a, b) | Re::Alt(a, b) => a.has_alts() || b.has_alts(),
+            Re::Star(a) | Re::Plus(a) | Re::Opt(a) | Re::Rep(_, _, a) | Re::Group(_, a) => a.has_alts(),
+            _ => false,
+        }
+    }
+    /// grammar rule of an expression with precedences inside (round 11b): SEQ / CHOICE / REPEAT / PREC around PATTERN leaves
+    fn to_rule(&self) -> Value {
+        if !self.has_alts() {
+            if let Re::Lit(v) = self { if v.is_empty() { return json!({"type":"BLANK"}); } }
+            return json!({"type":"PATTERN","value": self.pattern()});
+        }
+        match self {
+            Re::Alts(v) => {
+                let ms: Vec<Value> = v.iter().map(|(p, r)| json!({"type":"PREC","value":p,"content":r.to_rule()})).collect();
+                if ms.len() == 1 { ms.into_iter().next().unwrap() } else { json!({"type":"CHOICE","members":ms}) }
+            }
+            Re::Seq(a, b) => json!({"type":"SEQ","members":[a.to_rule(), b.to_rule()]}),
+            Re::Alt(a, b) => json!({"type":"CHOICE","members":[a.to_rule(), b.to_rule()]}),
+            Re::Opt(a) => json!({"type":"CHOICE","members":[a.to_rule(), {"type":"BLANK"}]}),
+            Re::Plus(a) => json!({"type":"REPEAT1","content":a.to_rule()}),
+            Re::Star(a) => json!({"type":"REPEAT","content":a.to_rule()}),
+            _ => panic!("precedence inside a counted repetition / group is not generated"),
+        }
     }
     fn ser(&self) -> String {
         match self {
@@ -306,6 +335,8 @@ impl TokSet {
                 json!({"type":"STRING","value": v.iter().map(|c| char::from_u32(*c).unwrap()).collect::<String>()})
             } else if let Re::Alts(v) = &t.re {
                 json!({"type":"CHOICE","members": v.iter().map(|(p, r)| json!({"type":"PREC","value":p,"content":{"type":"PATTERN","value":r.pattern()}})).collect::<Vec<_>>()})
+            } else if t.re.has_alts() {
+                t.re.to_rule()
             } else if t.ci {
                 json!({"type":"PATTERN","value": t.re.pattern(), "flags": "i"})
             } else {
@@ -510,7 +541,7 @@ fn rand_set(rng: &mut Rng) -> TokSet {
     if !with_word && rng.chance(1, 4) {
         let has_letter = |t: &Tok| { let s = t.re.ser(); ["61", "62", "63", "64", "e9", "3bb"].iter().any(|h| s.contains(h)) };
         for _ in 0..rng.range(1, 2) {
-            let cands: Vec<usize> = (0..toks.len()).filter(|i| !toks[*i].is_string && !matches!(toks[*i].re, Re::Alts(_)) && has_letter(&toks[*i])).collect();
+            let cands: Vec<usize> = (0..toks.len()).filter(|i| !toks[*i].is_string && !toks[*i].re.has_alts() && has_letter(&toks[*i])).collect();
             if cands.is_empty() { break; }
             let i = *rng.pick(&cands);
             match rng.below(3) {
@@ -806,7 +837,7 @@ fn sample_re(re: &Re, rng: &mut Rng, out: &mut Vec<u32>) {
 
 fn rand_mode_set(rng: &mut Rng) -> ModeSet {
     let base = loop { let b = rand_set(rng); if b.word.is_none() { break b; } };
-    let mut toks: Vec<Tok> = base.toks.into_iter().filter(|t| match &t.re { Re::Lit(v) => !(v.len() == 1 && (v[0] == 0x28 || v[0] == 0x29)), Re::Alts(_) => false, _ => true })
+    let mut toks: Vec<Tok> = base.toks.into_iter().filter(|t| match &t.re { Re::Lit(v) => !(v.len() == 1 && (v[0] == 0x28 || v[0] == 0x29)), r => !r.has_alts() })
         // tokens that begin with an extras character belong to the token-soup family (separator-aware model)
         .filter(|t| ![0x20u32, 0x0a, 0x09].iter().any(|c| t.re.can_start(*c)))
         // inline flag directives / explicit groups likewise (only `run_set` hands the model the resolved pattern)
@@ -1111,6 +1142,61 @@ fn rand_large_class_set(rng: &mut Rng) -> (TokSet, Vec<u32>) {
     (TokSet { word: None, extras, toks }, alpha)
 }
 
+/// round 11b: a `prec` on an INNER branch of a token whose branches rejoin a common continuation —
+/// `seq(head, choice(a, prec(p_in, b)), tail)`, `seq(head, optional(prec(p_in, b)), tail)`, `seq(head, repeat(choice(a, prec(p_in, b))), tail)`
+/// — next to a competitor that completes on `head` (or on `head` + the first branch character) with a precedence between
+/// the outer and the inner one (or equal to one of them), plus filler tokens.  Returns the set and directed strings
+/// (samples of the nested tokens through every branch).
+fn rand_nested_set(rng: &mut Rng) -> (TokSet, Vec<Vec<u32>>) {
+    let mut focus: Vec<u32> = Vec::new();
+    while focus.len() < 4 { let c = *rng.pick(&ALPHA); if !focus.contains(&c) { focus.push(c); } }
+    let piece = |rng: &mut Rng| -> Re {
+        loop {
+            let r = match rng.below(4) { 0 | 1 => Re::Lit(vec![*rng.pick(&focus)]), 2 => Re::Lit((0..2).map(|_| *rng.pick(&focus)).collect()), _ => rand_re(rng, 1, &focus) };
+            if !r.nullable() && !r.has_alts() { return r; }
+        }
+    };
+    let mut toks: Vec<Tok> = Vec::new();
+    let mut directed: Vec<Vec<u32>> = Vec::new();
+    for _ in 0..rng.range(1, 2) {
+        let p_out: i32 = *rng.pick(&[-1, 0, 0, 0, 1]);
+        let p_in: i32 = p_out + *rng.pick(&[2, 2, 1, -1]);
+        let p_mid: i32 = if p_in - p_out == 2 && rng.chance(3, 4) { p_out + 1 } else { *rng.pick(&[p_out, p_in, p_out + 1]) };
+        let inner = Re::Alts(vec![(p_in, piece(rng))]);
+        let mid = match rng.below(6) {
+            0 | 1 => if rng.chance(1, 2) { Re::Alt(Box::new(piece(rng)), Box::new(inner)) } else { Re::Alt(Box::new(inner), Box::new(piece(rng))) },
+            2 => Re::Alts(vec![(p_in, piece(rng)), (*rng.pick(&[p_out, p_mid, p_out - 1]), piece(rng))]),
+            3 => Re::Opt(Box::new(inner)),
+            4 => Re::Plus(Box::new(if rng.chance(1, 2) { Re::Alt(Box::new(piece(rng)), Box::new(inner)) } else { inner })),
+            _ => Re::Star(Box::new(Re::Alt(Box::new(piece(rng)), Box::new(inner)))),
+        };
+        let head = piece(rng);
+        let with_tail = rng.chance(3, 4);
+        let body = if with_tail { Re::Seq(Box::new(mid), Box::new(piece(rng))) } else { mid };
+        let re = Re::Seq(Box::new(head.clone()), Box::new(body));
+        if re.nullable() || toks.iter().any(|t| t.re.ser() == re.ser()) { continue; }
+        // competitor: completes where the branches begin (or one character later)
+        let mut comp = head.clone();
+        if rng.chance(1, 4) { comp = Re::Seq(Box::new(comp), Box::new(Re::Lit(vec![*rng.pick(&focus)]))); }
+        if let Re::Seq(a, b) = &comp { if let (Re::Lit(x), Re::Lit(y)) = (&**a, &**b) { let mut v = x.clone(); v.extend(y); comp = Re::Lit(v); } }
+        let comp_is_string = matches!(comp, Re::Lit(_)) && rng.chance(1, 2);
+        for _ in 0..12 { let mut v = Vec::new(); sample_re(&re, rng, &mut v); directed.push(v); }
+        let nested = Tok { prec: p_out, is_string: false, re, immediate: false, ci: false };
+        let competitor = Tok { prec: p_mid, is_string: comp_is_string, re: comp, immediate: false, ci: false };
+        if rng.chance(1, 2) { toks.push(competitor); toks.push(nested); } else { toks.push(nested); toks.push(competitor); }
+    }
+    for _ in 0..rng.range(0, 2) {
+        let r = piece(rng);
+        let is_string = matches!(r, Re::Lit(_)) && rng.chance(1, 2);
+        let at = rng.below(toks.len() + 1);
+        toks.insert(at, Tok { prec: *rng.pick(&[-1, 0, 0, 1, 2]), is_string, re: r, immediate: false, ci: false });
+    }
+    { let mut seen: Vec<String> = Vec::new();
+      toks.retain(|t| { let k = t.re.ser(); if seen.contains(&k) { false } else { seen.push(k); true } }); }
+    let extras = if rng.chance(2, 3) { 0 } else { rng.range(1, EXTRAS_SHAPES - 1) };
+    (TokSet { word: None, extras, toks }, directed)
+}
+
 fn run_set(out: &mut impl Write, id: &str, ts: &TokSet, strings: &mut dyn FnMut(&mut dyn FnMut(&[u32]))) -> Result<usize, String> {
     let name = format!("c14_{}", id.replace('-', "_"));
     let b = zoo::build_from_json(&ts.grammar(&name), None, tree_sitter_generate::OptLevel::default())?;
@@ -1298,7 +1384,43 @@ fn main() {
             Err(e) => { rejected += 1; writeln!(out, "skip {id} {} {}", ms.ser(), e.replace('\n', " ").chars().take(160).collect::<String>()).unwrap(); }
         }
     }
+    // round 11b: precedence on an inner branch that rejoins a common continuation (own random stream: the families above
+    // keep theirs)
+    let n_nested = if thorough { 120 } else { 36 };
+    let mut nrng = Rng::new(seed_from_env() ^ 0x11b_c14_5eed);
+    let mut nbuilt = 0usize;
+    for k in 0..n_nested {
+        let mut srng = nrng.fork();
+        let (ts, directed) = rand_nested_set(&mut srng);
+        if !ts.toks.iter().any(|t| t.re.has_alts()) { continue; }
+        let id = format!("N{}-{k}", seed_from_env() % 100000);
+        let mut gen = |f: &mut dyn FnMut(&[u32])| {
+            let mut s: Vec<u32> = Vec::new();
+            fn rec(s: &mut Vec<u32>, left: usize, syms: &[u32], f: &mut dyn FnMut(&[u32])) {
+                f(s);
+                if left == 0 { return; }
+                for c in syms { s.push(*c); rec(s, left - 1, syms, f); s.pop(); }
+            }
+            // every string up to length 4 (5) over the symbols of the set and the blank
+            let mut es: Vec<u32> = Vec::new();
+            for t in &ts.toks { let mut v = Vec::new(); for _ in 0..8 { sample_re(&t.re, &mut srng, &mut v); } for c in v { if !es.contains(&c) && es.len() < 6 { es.push(c); } } }
+            es.push(0x20);
+            rec(&mut s, full_len, &es, f);
+            for d in &directed {
+                f(d);
+                let mut w = vec![*srng.pick(&ALPHA), 0x20]; w.extend(d); w.push(0x20); w.extend(d); f(&w);
+                let mut w = d.clone(); w.extend(d); f(&w);
+                let mut w = d.clone(); w.push(*srng.pick(&ALPHA)); f(&w);
+            }
+            for _ in 0..n_long { let len = srng.range(3, 12); let v: Vec<u32> = (0..len).map(|_| *srng.pick(&es)).collect(); f(&v); }
+        };
+        match run_set(&mut out, &id, &ts, &mut gen) {
+            Ok(n) => { nbuilt += 1; built += 1; total += n; }
+            Err(e) => { rejected += 1; writeln!(out, "skip {id} {} {}", ts.ser(), e.replace('\n', " ").chars().take(160).collect::<String>()).unwrap(); }
+        }
+    }
     out.flush().unwrap();
+    eprintln!("c14: {nbuilt} nested-precedence token sets built;");
     eprintln!("c14: {mbuilt} two-mode grammars built;");
     eprintln!("c14: {built} token sets built, {rejected} rejected by the generator, {total} strings");
 }
